@@ -14,11 +14,12 @@
 import json
 
 import vlib
+import _wire
 
 
 def run(c):
     drv = c.build("addrtext")
-    c.mc("AddrTextMC", "AddrTextMC.%s.cfg" % c.tier, timeout=3000)
+    _wire.mc(c, "AddrTextMC", "AddrTextMC.%s.cfg" % c.tier, timeout=3000)
     # design-level demonstration of D7 (never a verdict): without the fallback the round trip fails
     r0 = c.tlc("AddrTextMC", "AddrTextMC.nofallback.cfg", workers=2, timeout=600)
     if "RoundTrip" in r0.inv_violated:
@@ -31,7 +32,7 @@ def run(c):
         trace = c.scratch + "/addrtext.ndjson"
         c.run_driver(drv, ["-out", trace] + (["-scale", 5, "-mutevery", 6] if c.thorough else ["-scale", 1, "-mutevery", 30]))
     r = c.validate("AddrTextTrace", "AddrTextTrace.cfg", trace, timeout=3000)
-    c.judge_trace(r, trace)
+    _wire.judge_table(c, r, trace)
     n = 0
     shapes = set()
     kinds = {}
@@ -51,9 +52,9 @@ def run(c):
                 if any(p["ok"] for p in e["p"]):
                     accepted_mutants += 1
                     shapes.add(json.dumps([e["kind"], e["mut"], oc, e["text"]]))
-    drift = set(k for (_, k) in _drift(r.out))
+    drift = _wire.drift_keys(r.out)
     if drift:
-        c.notes.append("model drift (not a verdict): " + "; ".join(sorted(drift))[:1500])
+        c.notes.append("model drift (not a verdict): " + "; ".join(drift)[:1500])
     c.notes.append("records per kind: %s; mutant/random texts accepted by some parser: %d" % (
         json.dumps(kinds, sort_keys=True), accepted_mutants))
     c.cov["traces_validated_against_impl"] += 1
@@ -70,7 +71,3 @@ def run(c):
                       "for them only 'no parser returns a different value' is required",
                       "IP texts accepted by Go's netip beyond the RFC 4291 forms of the specification are drift, not violations"]
 
-
-def _drift(out):
-    import re
-    return [(int(m.group(1)), m.group(2)) for m in re.finditer(r'<<"VERIF-DRIFT", (\d+), "((?:[^"\\]|\\.)*)">>', out)]
